@@ -216,6 +216,9 @@ fn zero_right_pad_integer_ascii_digits(
     debug_assert_ne!(digits.len(), 0);
 
     let integer_zero_count = match exp.to_usize() {
+        // zero needs no integer padding: "0" already is the whole integer part
+        // (padding it would print "000", which is not even a valid JSON number)
+        Some(_) if digits.as_slice() == b"0" => 0,
         Some(n) => n,
         None => { return; }
     };
